@@ -207,6 +207,7 @@ class Ids:
 
 
 _HELD = {}
+_FORM = [0]
 
 
 def do_call(comp, obj, members, layout, pool, ids):
@@ -220,8 +221,16 @@ def do_call(comp, obj, members, layout, pool, ids):
         X = rows[0].unsqueeze(0) if comp.name.startswith("Polar") or "Polar" in comp.name or "Demodulator" in comp.name or "Modulator" in comp.name else rows[0]
     else:  # 3-D
         X = torch.stack(rows).unsqueeze(0)
-    before = X.clone()
-    ev = {"members": list(members), "layout": layout, "results": [], "raised": False, "input_unchanged": True, "earlier_result_unchanged": True, "error": ""}
+    # the input tensor's form in turn: contiguous, a non-contiguous strided view of a larger buffer, a leaf that requires grad
+    _FORM[0] += 1
+    form = ("contiguous", "strided view", "requires_grad")[_FORM[0] % 3]
+    if form == "strided view":
+        from .core import noncontiguous
+        X = noncontiguous(X)
+    elif form == "requires_grad" and (X.is_floating_point() or X.is_complex()):
+        X = X.clone().requires_grad_(True)
+    before = X.detach().clone()
+    ev = {"members": list(members), "layout": layout, "results": [], "raised": False, "input_unchanged": True, "earlier_result_unchanged": True, "error": "", "input_form": form}
     held = _HELD.get(id(obj))          # the tensor this object returned last time, and what it held then
     try:
         try:
@@ -229,7 +238,7 @@ def do_call(comp, obj, members, layout, pool, ids):
         except Exception:
             if layout != "single" or X.dim() != 1:
                 raise
-            X = X.unsqueeze(0)              # a component may reject 1-D input; a single sample is then a batch of one
+            X = X.detach().unsqueeze(0)     # a component may reject 1-D input; a single sample is then a batch of one
             before = X.clone()
             Y = comp.call(obj, X)
         if held is not None and held[0] is obj:
@@ -242,6 +251,7 @@ def do_call(comp, obj, members, layout, pool, ids):
     except Exception as ex:
         ev["raised"] = True
         ev["error"] = repr(ex)[:100]
+    X = X.detach()
     same = before.shape == X.shape and (torch.equal(before, X) if not before.is_floating_point() and not before.is_complex() else torch.equal(torch.nan_to_num(torch.view_as_real(before) if before.is_complex() else before), torch.nan_to_num(torch.view_as_real(X) if X.is_complex() else X)))
     ev["input_unchanged"] = bool(same)
     return ev
